@@ -48,6 +48,16 @@ class TensorVal:
         return f"{self.kind}({self.name!r}, {self.upper}, {self.lower}, {self.bra_ket_sym})"
 
 
+class _Ref:
+    """a definite (never None) record with fixed attributes"""
+
+    def __init__(self, name, **attrs):
+        self.name, self.attrs = name, attrs
+
+    def __repr__(self):
+        return f"<{self.name}>"
+
+
 class XPoly(Poly):
     """model of an ``expr_container.Expr``: a *mutable* record around a polynomial.  Which methods update the record and
     return it, and which return a new record, is read off the source of expr_container.py (``expr_method_kinds``);
@@ -307,6 +317,8 @@ class _Eval:
     def attr_hook(self, sx, obj, attr, node):
         if isinstance(obj, Obj) and "_fields" in obj.attrs:
             return NotImplemented
+        if isinstance(obj, _Ref):
+            return obj.attrs.get(attr, NotImplemented)
         if not isinstance(obj, Poly):
             return NotImplemented
         box = isinstance(obj, XPoly)  # Expr container (mutable) | sympy object (immutable value)
@@ -717,9 +729,9 @@ def expected_spin_blocks(ctx, name):
 
 class _SpinEval(_Eval):
     """evaluates RegisteredIntermediate.allowed_spin_blocks; spatial_orbitals.allowed_spin_blocks is vocabulary,
-    modelled by its contract with the restrictions Obj.allowed_spin_blocks knows: ERI hard coded, t-amplitudes spin
-    conserving between the two halves, other registered intermediates by their own allowed_spin_blocks, tensors without
-    known blocks (Fock matrix, orbital energies) unrestricted"""
+    modelled by its contract (a block survives when the indices can be given spins such that every object is on one of
+    the blocks its own Obj.allowed_spin_blocks lists; objects without known blocks do not restrict; an index that only
+    sits on such objects makes the library give up); Obj.allowed_spin_blocks itself is evaluated (object_spin_blocks)"""
 
     def __init__(self, ctx, reg):
         super().__init__(ctx, reg)
@@ -743,6 +755,9 @@ class _SpinEval(_Eval):
         o.attrs["idx"] = (groups[1] + groups[0]) if kind == "Amplitude" else (groups[0] + groups[1])
         return o
 
+    def object_blocks(self, f):
+        return object_spin_blocks(self.ctx, self.reg, f)
+
     def h_spin_blocks(self, sx, a, kw):
         b = sx.bind(self.model.fn("spatial_orbitals:allowed_spin_blocks"), a, kw, False, True, True)
         expr, tgt = b.get("expr"), b.get("target_idx")
@@ -757,30 +772,75 @@ class _SpinEval(_Eval):
             raise Raised("ValueError", None, None)  # the library refuses terms with other target indices
 
         def allowed(f):
-            if f[0] == "eri":
-                return _conserving(2)
-            if f[0] in ("fock", "e"):
+            blocks = self.object_blocks(f)
+            if blocks is None:
                 return None
-            if f[0] == "itmd":
-                inf = self.reg[f[1]]
-                if inf["tensor_name_cfg"] == "gs_amplitude":
-                    if len(inf["default_idx"]) % 2:
-                        raise Raised("ValueError", None, None)
-                    return _conserving(len(inf["default_idx"]) // 2)
-                blocks = declared_spin_blocks(self.ctx, f[1])
-                if blocks is None:
-                    raise Raised("RuntimeError", None, None)
-                return lambda s: "".join(s) in blocks
-            raise AnalysisError(f"spin blocks: factor {f!r}")
+            return lambda s: "".join(s) in blocks
         for c, fs in expr.terms:
-            covered = set(tgt)
+            covered = set()
             for f in fs:
                 if f[0] != "denom" and allowed(f) is not None:
                     covered |= set(_factor_indices(f))
-            if c != 0 and {i for f in fs for i in _factor_indices(f)} - covered:
-                # an index that only sits on tensors without known blocks is never assigned a spin: the library gives up
+            if c != 0 and {i for f in fs if f[0] != "denom" for i in _factor_indices(f)} - covered:
+                # an index (target or not) that only sits on tensors without known blocks is never assigned a spin by
+                # an object: the library gives up ("Not all indices were assigned to a spin")
                 raise Raised("RuntimeError", None, None)
         return tuple(sorted(spin_blocks(expr, tgt, allowed)))
+
+
+def object_spin_blocks(ctx, reg, f):
+    """value of ``expr_container.Obj.allowed_spin_blocks`` (evaluated) for the tensor object of the factor ``f``: set of
+    block strings in the order the tensor lists its indices, None = no known restriction; raises ``Raised``"""
+    kind = f[0]
+    if kind == "itmd":
+        inf = reg[f[1]]
+        tk = inf["tensor_kind"]
+        tname = inf["tensor_name_literal"] or (_marker(inf["tensor_name_cfg"]) + inf["tensor_ext"])
+        nidx = len(inf["default_idx"])
+        key = ("obj-spin", ctx.model.digest, "itmd", f[1])
+    else:
+        tk, tname, nidx = {"eri": ("AntiSymmetricTensor", _marker("eri"), 4), "fock": ("AntiSymmetricTensor", _marker("fock"), 2),
+                           "e": ("NonSymmetricTensor", _marker("orb_energy"), 1)}[kind]
+        key = ("obj-spin", ctx.model.digest, kind)
+    if key in _CACHE:
+        r = _CACHE[key]
+        if isinstance(r, Raised):
+            raise r
+        return r
+    idx = tuple("pqrstuvw"[:nidx])
+    ev = _Eval(ctx, reg)
+    fn = ctx.model.fn("expr_container:Obj.allowed_spin_blocks")
+
+    def lookup(sx, a, kw):
+        o = Obj(None, "Intermediates()")
+        avail = {}
+        if kind == "itmd":
+            d = declared_spin_blocks(ctx, f[1])
+            if d is None:
+                raise Raised("RuntimeError", None, None)
+            avail[f[1]] = _Ref(f[1], allowed_spin_blocks=tuple(sorted(d)))
+        o.attrs["available"] = avail
+        return o
+    ev.sx.hooks["Intermediates"] = lookup
+    ev.sx.hooks["longname"] = lambda sx, a, kw: f[1] if kind == "itmd" else "<no intermediate>"
+    ev.sx.hooks["is_t_amplitude"] = lambda sx, a, kw: bool(re.fullmatch(r"\{gs_amplitude\}\d*(cc)?", str(a[0])))
+    base = Obj(f"sympy_objects:{tk}", "tensor", idx=idx)
+    base.attrs["name"] = tname
+    me = Obj("expr_container:Obj", "obj", idx=idx, base=base)
+    try:
+        o = ev.run(fn, dict(self=me), f"Obj.allowed_spin_blocks of {tname}")
+        if o.kind == "raise":
+            raise Raised(o.exc, None, None)
+    except Raised as r:
+        _CACHE[key] = r
+        raise
+    v = o.value
+    if v is not None:
+        if not isinstance(v, (tuple, list)) or any(not (isinstance(x, str) and len(x) == nidx and set(x) <= {"a", "b"}) for x in v):
+            raise AnalysisError(f"Obj.allowed_spin_blocks of {tname} evaluates to {v!r}")
+        v = set(v)
+    _CACHE[key] = v
+    return v
 
 
 def declared_spin_blocks(ctx, name):
